@@ -61,7 +61,6 @@ def exec_op(op, dbmap, state):
     o = op["op"]
     db = dbmap[op["db"]]
     reply = {}
-    exc = None
     value = None
     try:
         if o == "adsorbate_to_db":
@@ -138,8 +137,17 @@ def exec_op(op, dbmap, state):
         else:
             raise ValueError("unknown store op " + o)
     except Exception as e:  # noqa: BLE001 - every outcome is data
-        exc = e
-    reply.update(_outcome(exc))
+        reply.update(_outcome(e))
+        failed = True
+    else:
+        reply.update(_outcome(None))
+        failed = False
+    if failed:
+        # An exception object keeps its traceback, the traceback keeps pyGAPS' frames, and those keep the cursor of a
+        # connection pyGAPS has already closed: until that cycle is collected the connection lingers (and may hold a
+        # read lock).  When the collector runs is not something a schedule may depend on: collect now, always.
+        import gc
+        gc.collect()
     if value is not None:
         reply["value"] = value
     return reply
